@@ -27,11 +27,11 @@ type structInfo struct {
 }
 
 type Sorts struct {
-	d       *Decls
-	structs map[string]*structInfo // key: type string
-	bySort  map[string]*structInfo
-	typeIDs map[string]int
-	opaque  map[string]string
+	d          *Decls
+	structs    map[string]*structInfo // key: type string
+	bySort     map[string]*structInfo
+	typeIDs    map[string]int
+	opaque     map[string]string
 	inProgress map[string]bool
 }
 
@@ -115,12 +115,14 @@ func (s *Sorts) structSort(t types.Type, u *types.Struct) string {
 	if si, ok := s.structs[k]; ok {
 		return si.sort
 	}
+	// a function of the type alone: the same Go type has the same sort name in every executor (the
+	// constructor/selector folding table in smt.go is shared) and in every run
 	name := "S_" + mangle(shortTypeName(k))
-	if _, clash := s.bySort[name]; clash || len(name) > 80 {
-		name = fmt.Sprintf("S%d_%s", len(s.structs), mangle(lastSeg(k)))
-		if len(name) > 80 {
-			name = name[:60] + shortHash(k)
-		}
+	if len(name) > 60 {
+		name = name[:60]
+	}
+	if !strings.HasPrefix(shortTypeName(k), "anon_") {
+		name += "_" + shortHash(k)[:6]
 	}
 	si := &structInfo{sort: name, typ: u, named: k}
 	// reserve the name before visiting the fields (a field of a different type with the same short
@@ -246,14 +248,11 @@ var strMu sync.Mutex
 
 func (s *Sorts) strID(v string) int {
 	s.d.DeclareFun("str.id", []string{SStr}, SInt)
-	strMu.Lock()
-	defer strMu.Unlock()
-	if id, ok := strIDs[v]; ok {
-		return id
-	}
-	id := len(strIDs) + 1
-	strIDs[v] = id
-	return id
+	// a function of the literal alone (not of the order in which literals are met), so that the
+	// generated SMT text is identical from run to run
+	var id int64
+	fmt.Sscanf(shortHash(v)[:11], "%x", &id)
+	return int(id) + 1
 }
 
 // integer type ranges
